@@ -56,7 +56,7 @@ FITS_COMBOS = [c for c in COMBOS if c[0] == "fits"]
 DTYPES = {"F32": np.float32, "F64": np.float64, "I16": np.int16, "I32": np.int32, "U8": np.uint8, "F16x3": np.float16}
 
 
-def gen_leaf(rng, mode, style, const=None):
+def gen_leaf(rng, mode, style, const=None, allow_inf=False):
     """A 256x256 leaf tile (as stored, before any vertical flip), or None if entirely undefined."""
     if mode in ("F32", "F64", "F16x3"):
         dt = DTYPES[mode]
@@ -80,6 +80,11 @@ def gen_leaf(rng, mode, style, const=None):
         elif style == 4:
             undefined[:, :] = True
         arr[undefined] = np.nan
+        # saturated / overflowed samples: infinities are defined values (only NaN means undefined)
+        ninf = (0, 0, 0, 3, 40)[rng.randint(0, 5)] if allow_inf else 0
+        for _ in range(ninf):
+            yy, xx = rng.randint(0, 256, 2)
+            arr[yy, xx] = np.inf if rng.randint(0, 3) else -np.inf
         if np.all(np.isnan(arr)):
             return None
         return arr
@@ -223,8 +228,11 @@ def tiles_match(real, ref, fmt, levels, maxabs):
         if not np.array_equal(rn, fn):
             return "undefined-pixel pattern differs at %d pixels" % int(np.sum(rn != fn))
         tol = 16.0 * float(np.finfo(ref.dtype).eps) * max(1, levels) * max(maxabs, 1.0)
-        diff = np.abs(real.astype(np.float64) - ref.astype(np.float64))
+        with np.errstate(all="ignore"):
+            diff = np.abs(real.astype(np.float64) - ref.astype(np.float64))
         diff[fn] = 0
+        diff[real == ref] = 0           # equal infinities
+        diff[np.isnan(diff)] = np.inf   # an infinity against a finite value or the opposite infinity
         if diff.max() > tol:
             k = np.unravel_index(np.argmax(diff), diff.shape)
             return "pixel %s is %r, expected %r (|diff| %.3g > tol %.3g); %d pixels differ" % (k, real[k], ref[k], diff.max(), tol, int(np.sum(diff > tol)))
@@ -295,7 +303,7 @@ def run_core(ch, env, prop):
             leaf_mode = mode
             if mode == "RGBmix":
                 leaf_mode = ("RGB", "RGBA")[rng.randint(0, 2)]
-            arr = gen_leaf(rng, leaf_mode, style, const)
+            arr = gen_leaf(rng, leaf_mode, style, const, allow_inf=not c14)
             if arr is not None:
                 leaves[p] = arr
     if not leaves:
@@ -304,7 +312,7 @@ def run_core(ch, env, prop):
     ref = reference_cascade(leaves, fmt, mode, start)
     maxabs = 0.0
     if DTYPES.get(mode, np.uint8)(0).dtype.kind == "f":
-        maxabs = max(float(np.nanmax(np.abs(a.astype(np.float64)))) for a in leaves.values())
+        maxabs = max(float(np.max(np.abs(a.astype(np.float64))[np.isfinite(a)], initial=0.0)) for a in leaves.values())
 
     d = env.fresh_dir()
     pio = PyramidIO(d, scheme=scheme, default_format=fmt)
